@@ -145,12 +145,16 @@ fn main() {
     let mut prof = GenProfile::standard(args.thorough);
     // deletes, updates (with and without payload: the payload-less ones share the superseded frame's bytes),
     // commits so that many vacuums start from a quiescent handle, many vacuums and doctor runs
-    prof.w_put = 34; prof.w_update = 18; prof.w_delete = 12; prof.w_commit = 14; prof.w_reopen = 5; prof.w_crash = 2; prof.w_readonly = 1;
-    prof.w_batch = 2; prof.w_skip = 1; prof.w_finalize = 1; prof.w_vacuum = 9; prof.w_doctor = 4; prof.w_ticket = 0;
+    // (not generated, because their own findings — recorded by the properties they belong to — would mask C42's
+    // clauses: skip-index commits leave the lexical index stale until the next rebuild (C40); finalize_indexes and
+    // process crashes (C01 / crash family: a crash right after WAL growth loses the sketch track); the fixed
+    // corpus below still has a crash after a vacuum.  Long WAL-filling histories force these ops, so none is run.)
+    prof.w_put = 34; prof.w_update = 18; prof.w_delete = 12; prof.w_commit = 14; prof.w_reopen = 6; prof.w_crash = 0; prof.w_readonly = 1;
+    prof.w_batch = 2; prof.w_skip = 0; prof.w_finalize = 0; prof.w_vacuum = 9; prof.w_doctor = 4; prof.w_ticket = 0;
     prof.emb_percent = 25; prof.wrong_dim_percent = 1; prof.instant_index_percent = 10;
     prof.n_short = if args.thorough { 400 } else { 30 };
     prof.short_len = (12, 50);
-    prof.n_long = if args.thorough { 12 } else { 1 };
+    prof.n_long = 0;
     prof.corpus = corpus();
     let cfg = FamilyConfig {
         property: "C42",
@@ -233,7 +237,16 @@ fn main() {
                     // (a doctor run that was ASKED to rebuild the vector index empties it: finding of C14 / C21, not the vacuum's)
                     let rebuilds_vec = matches!(v.op, Op::Doctor { rebuild_vec: true, .. });
                     if s2.vec.is_none() || live.vec.is_none() || rebuilds_vec { s2.vec = live.vec.clone(); }
-                    res = reads_diff(&s2, &live, "before the vacuum", "after it");
+                    // a hit on an INACTIVE frame before the vacuum is a stale index entry (property C08's business);
+                    // the vacuum's rebuild may drop it — but it must never report one itself
+                    let inactive = |id: &u64| a.frames.get(*id as usize).is_none_or(|f| !f.active());
+                    for r in s2.search.iter_mut() { if let Ok(m) = r { m.retain(|id, _| !inactive(id)); } }
+                    for (i, r) in live.search.iter().enumerate() {
+                        if let Ok(m) = r { if let Some(id) = m.keys().find(|id| inactive(id)) {
+                            res = Some(("search-returns-inactive-frame-after-vacuum".into(), format!("search(`{}`) after the vacuum reports frame {id}, which is not active", QUERIES[i].0)));
+                        } }
+                    }
+                    if res.is_none() { res = reads_diff(&s2, &live, "before the vacuum", "after it"); }
                 }
                 if res.is_none() && direct {
                     if b.time.is_some() && b.time != a.time { res = Some(("time-index-changed-by-vacuum".into(), format!("time index {:?} before, {:?} after", b.time, a.time))); }
